@@ -1060,7 +1060,12 @@ def scenarios_for(binary, prop):
 def worker(args):
     binary, scenario, props, budget, seed = args
     try:
-        st, viol, samples = explore(binary, scenario, props, budget, seed)
+        try:
+            st, viol, samples = explore(binary, scenario, props, budget, seed)
+        except Exception:
+            # a runner process that died (loaded machine) is retried once before it counts as an error
+            time.sleep(1.0)
+            st, viol, samples = explore(binary, scenario, props, budget, seed)
         return scenario, st, viol, samples, None
     except Exception as e:  # infrastructure error
         import traceback
